@@ -4255,9 +4255,15 @@ func (a *Association) handleChunk(receivedPacket *packet, receivedChunk chunk) e
 		packets, err = a.handleReconfig(receivedChunk)
 
 	case *chunkForwardTSN:
-		packets = a.handleForwardTSN(receivedChunk)
+		// Like DATA, a FORWARD-TSN only makes sense once the association can receive
+		// data; earlier it would move a cumulative TSN that is not even agreed yet.
+		if a.canHandleData(a.getState()) {
+			packets = a.handleForwardTSN(receivedChunk)
+		}
 	case *chunkIForwardTSN:
-		packets = a.handleIForwardTSN(receivedChunk)
+		if a.canHandleData(a.getState()) {
+			packets = a.handleIForwardTSN(receivedChunk)
+		}
 
 	case *chunkShutdown:
 		err = a.handleShutdown(receivedChunk)
